@@ -73,6 +73,11 @@ func seamItem(kind byte, i int) (cl opshell.CLine, want string) {
 		return opshell.CLine{Plain: true, Line: s}, strings.ReplaceAll(s, "\n", "\r\n")
 	case 'D':
 		return opshell.CLine{Plain: true, Line: "dup."}, "dup."
+	case 'U':
+		/* Ends inside a multi-byte character (Latin-1 text, UTF-8 cut by
+		head -c, binary): these bytes are output like any other. */
+		s := fmt.Sprintf("<U%d>caf", i) + []string{"\xe9", "\xc3", "\xe2\x82", "\xf0\x9f\x98"}[i%4]
+		return opshell.CLine{Plain: true, Line: s}, s
 	case 'N':
 		s := fmt.Sprintf("<N%d>[addr] Output connection closed", i)
 		return opshell.CLine{Line: s, Color: opshell.ColorRed}, s + "\r\n"
@@ -120,7 +125,7 @@ func seamRun(capPath, seq, regime string) (viols []seamViol, err error) {
 	if got != want {
 		/* Classify: lost, reordered, or changed. */
 		sig := "terminal-differs"
-		markers := regexp.MustCompile(`<[PQMRNS]\d+>`)
+		markers := regexp.MustCompile(`<[PQMRNSU]\d+>`)
 		gm, wm := strings.Join(markers.FindAllString(got, -1), ""), strings.Join(markers.FindAllString(want, -1), "")
 		switch {
 		case gm == wm:
@@ -211,7 +216,13 @@ func c02TypedRun(capPath string, n int) (viols []seamViol, err error) {
 		want = append(want, l)
 		paste.WriteString(l + "\r")
 	}
-	ts.stdinW.Write([]byte(paste.String()))
+	if strings.Contains(ts.output(), "\x1b[?2004h") {
+		/* The program has asked the terminal to bracket what is pasted, and
+		a terminal that knows how does. */
+		ts.stdinW.Write([]byte("\x1b[200~" + paste.String() + "\x1b[201~"))
+	} else {
+		ts.stdinW.Write([]byte(paste.String()))
+	}
 	/* The Shell reads its terminal in a blocking read, which looks
 	quiescent from outside: wait for the entries themselves (the watchdog
 	only ends a run in which some never come). */
@@ -281,7 +292,12 @@ func termSeamWorker(args []string) int {
 			}
 		}
 	}
+	alphabet := seamAlphabet
 	switch mode {
+	case "c03u":
+		/* For a worker started in a UTF-8 locale. */
+		alphabet = "PQUNS"
+		fallthrough
 	case "c03":
 		var seqs []string
 		var rec func(cur string)
@@ -292,7 +308,7 @@ func termSeamWorker(args []string) int {
 			if len(cur) == maxLen {
 				return
 			}
-			for _, k := range seamAlphabet {
+			for _, k := range alphabet {
 				rec(cur + string(k))
 			}
 		}
@@ -308,6 +324,9 @@ func termSeamWorker(args []string) int {
 				res.Steps += len(s)
 				add(vs)
 			}
+		}
+		if "c03u" == mode {
+			break
 		}
 		if vs, err := c03ChokedRun(capPath); nil != err {
 			res.Err = err.Error()
@@ -335,6 +354,17 @@ func termSeamWorker(args []string) int {
 			if !strings.Contains(got, line+"\r\n") || !strings.Contains(got, "plain "+text+"\r\n") {
 				add([]seamViol{{Sig: "notice-changed-on-the-way-to-the-terminal", What: fmt.Sprintf("the notice %q (and the chunk %q) reached the terminal as %q", line, "plain "+text, got), Case: "c10:" + text}})
 			}
+		}
+	case "c02t":
+		/* For a worker started with another TERM: the typed lines only. */
+		for _, n := range []int{1, 2, 3, 8, 24} {
+			vs, err := c02TypedRun(capPath, n)
+			if nil != err {
+				res.Err = err.Error()
+				break
+			}
+			res.Execs++
+			add(vs)
 		}
 	case "c02":
 		/* Lines typed (or pasted) on the terminal: every burst size, the
@@ -369,9 +399,15 @@ func termSeamWorker(args []string) int {
 
 // runTermSeam runs the worker and folds its findings into r.
 func runTermSeam(r *ev.Result, mode string, maxLen int, kind string) {
+	runTermSeamEnv(r, mode, maxLen, kind, nil)
+}
+
+// runTermSeamEnv is runTermSeam with the worker in a changed environment (the
+// operator's TERM, locale, NO_COLOR; see runCttyWorkerEnv).
+func runTermSeamEnv(r *ev.Result, mode string, maxLen int, kind string, env []string) {
 	base := ev.Scratch("seam-")
 	defer os.RemoveAll(base)
-	out, err := runCttyWorker("termseam", mode, fmt.Sprint(maxLen), base)
+	out, err := runCttyWorkerEnv(env, "termseam", mode, fmt.Sprint(maxLen), base)
 	var res seamResult
 	if jerr := json.Unmarshal(out, &res); nil != jerr || nil != err || "" != res.Err {
 		ev.Broken("terminal-seam worker: %v %v %s %q", err, jerr, res.Err, trunc80(string(out)))
@@ -379,9 +415,33 @@ func runTermSeam(r *ev.Result, mode string, maxLen int, kind string) {
 	r.Evaluations += res.Execs
 	r.Distinct += res.Execs
 	r.Traces += res.Execs
-	r.Set("terminal_seam_executions", res.Execs)
+	label := ""
+	if nil != env {
+		for i, e := range env {
+			if i > 0 {
+				label += ","
+			}
+			label += e
+			if !strings.Contains(e, "=") {
+				label += " unset"
+			}
+		}
+		prev, _ := r.Get("terminal_seam_executions_by_environment").(map[string]int)
+		if nil == prev {
+			prev = map[string]int{}
+		}
+		prev[label] = res.Execs
+		r.Set("terminal_seam_executions_by_environment", prev)
+	} else {
+		r.Set("terminal_seam_executions", res.Execs)
+	}
 	for _, v := range res.Viols {
-		r.Violate(ev.Violation{Signature: "terminal/" + v.Sig, What: v.What, Kind: kind, Replay: map[string]string{"terminal_case": v.Case}})
+		sig, what := "terminal/"+v.Sig, v.What
+		if "" != label {
+			sig += "/" + label
+			what = "with " + label + " in the environment: " + what
+		}
+		r.Violate(ev.Violation{Signature: sig, What: what, Kind: kind, Replay: map[string]string{"terminal_case": v.Case, "environment": label}})
 	}
 }
 
